@@ -138,3 +138,13 @@ CLAIMS['C17'] = dict(category='proof', ref='5 Core F, 8 C17',
          "on the real broker (2-8 unserialised publishers, packets wrapping a 16 KiB ring, strict reference parse, sequence numbers) and the broker correspondence. "
          "PARTIAL: the ring's own wrap/blocking is Core D; that every committed packet is well-formed MQTT is C03; that no write bypasses wmu is C18; Len()-vs-Encode() "
          "length mismatch (A2) belongs to C03.")
+
+CLAIMS['C14'] = dict(category='proof', ref='5 Core D, 8 C14',
+    text="Lean 4 theorems over all thread programs and all schedules of the small-step model of service/buffer.go (one step per shared access, per byte copied): safety invariant preserved by every step; the bytes the consumer obtained are exactly the source stream prefix and lie below the producer cursor; no producer step writes a cell of the consumer's uncommitted window; model tied to the code by schedules replayed on the real buffer (yield hooks), lock-structure facts by decide",
+    technique='machine-checked proof in Lean 4 (invariants of a concurrent small-step program, for all schedules) + differential correspondence of schedules on the real buffer',
+    note='Trusted: Lean kernel; axioms propext/Classical.choice/Quot.sound only; Go harness (model-guided scheduler at the verifYield marks) + line protocol + fact extractor; Go runtime semantics assumed by the model: sync.Mutex, sync.Cond, sequentially consistent atomics, scheduler fairness for liveness (see evidence.assumptions, NOTES-ring.md)')
+
+CLAIMS['C15'] = dict(category='proof', ref='5 Core D, 8 C15',
+    text='Lean 4 theorems over all programs and schedules of the repaired buffer: a mutex is held only inside its critical section (never by a returned thread), no lost wake-up (a parked waiter whose condition is met has a pending broadcaster), Close is a straight line of 7 own steps blocked only by a held mutex whose holder is enabled and releases within 3 steps, done exits every wait loop, a termination measure strictly decreasing with every enabled step (no livelock; at most mu(init) enabled steps in any schedule), and at quiescence every unfinished call waits legitimately (all returned once Close was called); scheduler fairness is the remaining hypothesis; tie as C14 with the lock probe compared after every step and a fair finish phase (Close, later calls) on the real buffer',
+    technique='machine-checked proof in Lean 4 (invariants of a concurrent small-step program, for all schedules) + differential correspondence of schedules on the real buffer',
+    note='Trusted: Lean kernel; axioms propext/Classical.choice/Quot.sound only; Go harness (model-guided scheduler at the verifYield marks) + line protocol + fact extractor; Go runtime semantics assumed by the model: sync.Mutex, sync.Cond, sequentially consistent atomics, scheduler fairness for liveness (see evidence.assumptions, NOTES-ring.md)')
